@@ -51,7 +51,7 @@ def add_unknown(text, rng):
 
 
 def keys(text):
-    """(keyword) sequence through the independent lexer; later plain SFAC and FVAR lines coalesce at the first"""
+    """(keyword, first parameter) sequence through the independent lexer; later plain SFAC and FVAR lines coalesce at the first"""
     out, seen = [], set()
     for l in rf.independent_lex(text):
         if not l['tokens']:
@@ -64,7 +64,12 @@ def keys(text):
                 continue
             if plain:
                 seen.add(k4)
-        out.append(kw)
+        first = l['tokens'][1].upper() if len(l['tokens']) > 1 else ''
+        try:
+            first = '%.5g' % float(first)
+        except ValueError:
+            pass
+        out.append((kw, first) if k4 not in ('TITL', 'REM') else (kw, ''))
     return out
 
 
@@ -103,8 +108,9 @@ def run(ctx):
             ev += 1
             # order of the instructions
             k_in, k_out = keys(text), keys(w1)
-            if k_in != k_out:
-                i = next((i for i, (a, b) in enumerate(zip(k_in, k_out)) if a != b), min(len(k_in), len(k_out)))
+            same = lambda a, b: a[0] == b[0] and (a[1] == b[1] or not a[1] or not b[1])      # a default may be written out
+            if len(k_in) != len(k_out) or not all(same(a, b) for a, b in zip(k_in, k_out)):
+                i = next((i for i, (a, b) in enumerate(zip(k_in, k_out)) if not same(a, b)), min(len(k_in), len(k_out)))
                 common.add_violation(ctx, 'the order of instructions and atoms in the written file differs from the input', dict(case, written=w1),
                                      k_in[max(0, i - 2):i + 3], k_out[max(0, i - 2):i + 3])
                 continue
